@@ -46,6 +46,7 @@ unsigned day_ago(time_t ref, time_t now)
 
 int state_status(struct snapraid_state* state)
 {
+	char esc_buffer[ESC_MAX];
 	block_off_t blockmax;
 	block_off_t i;
 	time_t* timemap;
@@ -144,9 +145,9 @@ int state_status(struct snapraid_state* state)
 				++file_zerosubsecond;
 				++disk_file_zerosubsecond;
 				if (disk_file_zerosubsecond < 50)
-					log_tag("zerosubsecond:%s:%s: \n", disk->name, file->sub);
+					log_tag("zerosubsecond:%s:%s: \n", disk->name, esc_tag(file->sub, esc_buffer));
 				if (disk_file_zerosubsecond == 50)
-					log_tag("zerosubsecond:%s:%s: (more follow)\n", disk->name, file->sub);
+					log_tag("zerosubsecond:%s:%s: (more follow)\n", disk->name, esc_tag(file->sub, esc_buffer));
 			}
 
 			/* check fragmentation */
